@@ -454,6 +454,301 @@ func main() {
 	fmt.Println(f(2), f(3), x)
 }
 `,
+	// regression program of 0a3a691 (F19-2/v1_generic_multi.go), without the methods of its generic type: the nodes of
+	// their instances are not below the root of the program (neither dumped nor instrumented; F19-8)
+	`package main
+
+import "fmt"
+
+type Number interface {
+	~int | ~float64
+}
+
+func sum[T Number](a []T) T {
+	var s T
+	for _, v := range a {
+		s += v
+	}
+	return s
+}
+
+func mapf[T, U any](a []T, f func(T) U) []U {
+	r := make([]U, 0, len(a))
+	for _, v := range a {
+		r = append(r, f(v))
+	}
+	return r
+}
+
+func unused[T any](x T) T {
+	return x
+}
+
+func main() {
+	fmt.Println(sum([]int{1, 2, 3}))
+	fmt.Println(sum([]float64{1.5, 2}))
+	fmt.Println(mapf([]int{1, 2}, func(i int) int { return i * 2 }))
+}
+`,
+	// regression program of 0a3a691 (F19-3/v1_return_goto.go)
+	`package main
+
+import "fmt"
+
+func f(n int) {
+	if n > 2 {
+		return
+	}
+	fmt.Println("f", n)
+}
+
+func g(n int) (r int) {
+	r = n * 2
+	if r > 4 {
+		return
+	}
+	r++
+	return
+}
+
+func main() {
+	i := 0
+loop:
+	if i < 3 {
+		i++
+		goto loop
+	}
+	f(1)
+	f(3)
+	fmt.Println(g(1), g(3), i)
+	k := 2
+	switch k {
+	case 1:
+		fmt.Println("one")
+	case 2:
+		fmt.Println("two")
+		fallthrough
+	case 3:
+		fmt.Println("three")
+	}
+}
+`,
+	// regression program of 0a3a691 (F19-3/v2_plain_conds.go)
+	`package main
+
+import "fmt"
+
+type T struct{ ok bool }
+
+func main() {
+	ok := true
+	t := T{ok: true}
+	n := 0
+	if ok {
+		n++
+	}
+	if t.ok {
+		n++
+	}
+	for ok {
+		n++
+		ok = false
+	}
+	k := 2
+	switch k {
+	case 2:
+		n += 10
+	}
+	switch 3 {
+	case 3:
+		n += 100
+	}
+	switch x := k + 1; x {
+	case 3:
+		n += 1000
+	}
+	var i interface{} = n
+	switch i.(type) {
+	case int:
+		n++
+	}
+	for {
+		n++
+		break
+	}
+	fmt.Println(n)
+}
+`,
+	// regression program of 0a3a691 (F19-4/v1_for_variants.go)
+	`package main
+
+import "fmt"
+
+func main() {
+	s := 0
+	for i := 0; i < 3; i++ {
+		s += i
+	}
+	j := 0
+	for ; j < 2; j++ {
+		s += 10
+	}
+	for k := 0; k < 2; {
+		k++
+		s += 100
+	}
+	for i := 0; i < 2; i++ {
+		for j := 0; j < 2; j++ {
+			s += 1000
+		}
+	}
+	for i := 0; i < 4; i++ {
+		if i == 1 {
+			continue
+		}
+		if i == 3 {
+			break
+		}
+		s += 10000
+	}
+	for i := 0; i < 2; i++ {
+		s += 100000
+	}
+	for i, n := 0, 2; i < n; i, n = i+1, n {
+		s += 1000000
+	}
+	for i := range 2 {
+		s += i
+	}
+	for _, v := range []int{1, 2, 3} {
+		s += v
+	}
+	m := map[string]int{"a": 1}
+	for k, v := range m {
+		s += v + len(k)
+	}
+	fmt.Println(s)
+}
+`,
+	// regression program of 0a3a691 (F19-5/v1_tagless.go)
+	`package main
+
+import "fmt"
+
+func classify(n int) string {
+	switch {
+	case n < 0:
+		return "neg"
+	case n == 0 || n == 1:
+		return "small"
+	case n > 100 && n < 200:
+		return "mid"
+	default:
+		return "other"
+	}
+}
+
+func main() {
+	for _, n := range []int{-1, 0, 1, 150, 7} {
+		fmt.Println(classify(n))
+	}
+	x := 3
+	switch y := x * 2; {
+	case y > 5:
+		fmt.Println("big")
+		fallthrough
+	case y > 100:
+		fmt.Println("huge")
+	}
+	switch x {
+	case 1, 2:
+		fmt.Println("12")
+	case 3:
+		fmt.Println("3")
+	}
+	switch {
+	case x > 0:
+		switch {
+		case x > 2:
+			fmt.Println("x>2")
+		}
+	}
+	var i interface{} = "s"
+	switch v := i.(type) {
+	case int:
+		fmt.Println("int", v)
+	case string:
+		fmt.Println("string", v)
+	}
+}
+`,
+	// regression program of 0a3a691 (F19-6/v2_panic_callee.go)
+	`package main
+
+import "fmt"
+
+func boom(m map[string]int, k string) int {
+	if m == nil {
+		panic("nil map " + k)
+	}
+	return m[k]
+}
+
+func main() {
+	fmt.Println("start")
+	v := boom(nil, "a") + 1
+	fmt.Println(v)
+}
+`,
+	// regression program of 0a3a691 (F19-7/v1_oneliners.go)
+	`package main
+
+import "fmt"
+
+type T struct{ n int }
+
+func (t *T) inc()                      { t.n++ }
+func (t T) get() int                   { return t.n }
+func add(a *int, b int)                { *a += b }
+func twice(f func(int) int, v int) int { return f(f(v)) }
+func nothing()                         {}
+
+func main() {
+	t := &T{}
+	t.inc()
+	t.inc()
+	fmt.Println(t.get())
+	v := 1
+	add(&v, 2)
+	fmt.Println(twice(func(i int) int { return i * 3 }, v))
+	nothing()
+	g := func(p *T) { p.n = 10 }
+	g(t)
+	fmt.Println(t.n)
+	if t.n > 5 {
+		fmt.Println("big")
+	} else {
+		fmt.Println("small")
+	}
+}
+`,
+	// a loop whose body is empty: the call of the condition and the empty block (a leaf placed in the control flow: a step)
+	// alternate on one line: one visit, one stop
+	`package main
+
+import "fmt"
+
+func main() {
+	k := 0
+	t := func() bool {
+		k++
+		return k < 4
+	}
+	for t() {
+	}
+	fmt.Println(k)
+}
+`,
 }
 
 func fixedProg(src string) progT {
